@@ -548,9 +548,9 @@ class DefaultOperatorResolver(OperatorResolver):
             if not m:
                 break
             symbol = (
-                symbol[: m.start(0)] + "-"
-                if len(m.group(0).replace("+", "")) % 2
-                else "+" + symbol[m.end(0) :]
+                symbol[: m.start(0)]
+                + ("-" if len(m.group(0).replace("+", "")) % 2 else "+")
+                + symbol[m.end(0) :]
             )
 
         if symbol in self.operator_table:
